@@ -193,7 +193,12 @@ impl C19 {
                 let d = *rng.pick(&[0i64, 0, -1, 1, -2, -4, -8, 8, -16, 16, -15, -7, 7, -0x80, 0x7f]);
                 e.wrapping_add(d as u64)
             };
+            // some registers keep whatever the constructor left in them (a machine nobody has fully initialised)
+            let lazy = rng.below(3) == 0;
             for r in GPR64.iter() {
+                if lazy && rng.below(3) == 0 {
+                    continue;
+                }
                 let v = match rng.below(8) {
                     0..=4 => edge_val(rng),
                     5 => *rng.pick(&[0u64, 1, TOP, i64::MAX as u64, i64::MIN as u64, 0xffff_ffff, 0x8000_0000, 8, 0x10]),
@@ -202,6 +207,9 @@ impl C19 {
                 let _ = ax.reg_write_64(sr(*r), v);
             }
             for i in 0..16u32 {
+                if lazy && rng.below(2) == 0 {
+                    continue;
+                }
                 let _ = ax.reg_write_128(sr(iced_x86::Register::XMM0 + i), rng.val128());
             }
             ax.verif_set_rflags(rng.next() & (F_STATUS | F_DF));
